@@ -156,7 +156,7 @@ def gen_geometry(rng, m, ground):
         na = rng.randrange(5, 10)
         rad = rng.choice([1.5, 3.0, 5.0])
         a1, a2 = rng.choice([(0, 90), (0, 180), (30, 150), (0, 270)])
-        add('arc', na, r, '--arc', ','.join(_g(x) for x in (na, rad, a1, a2, r)))
+        add('arc', na, r, rng.choice(['--arc', '--arc', '-a']), ','.join(_g(x) for x in (na, rad, a1, a2, r)))
         m.length = rad * 3
         if ground:
             a.extend(['--geo-translate', '1,0,0,%s' % _g(rad + rng.choice([2.0, 5.0]))])
@@ -172,7 +172,7 @@ def gen_geometry(rng, m, ground):
         v = [nh, ln, turn, rr, hr, hr]
         if rng.random() < 0.3:
             v += [hr * 0.6, hr * 0.6]
-        add('helix', nh, rr, '--helix', ','.join(_g(x) for x in v))
+        add('helix', nh, rr, rng.choice(['--helix', '--helix', '-H']), ','.join(_g(x) for x in v))
         m.length = 2 * PI * hr * abs(ln / turn) * 1.5 + ln
         if ground and rng.random() < 0.6:
             a.extend(['--geo-translate', '1,0,0,%s' % _g(rng.choice([0.5, 2.0]))])
@@ -340,7 +340,7 @@ def gen_geometry(rng, m, ground):
                 g['etag'] = g['tag']
     if t == 'tapered':
         tg = m.geo[0]['etag']
-        v = '%d,%d' % (tg, rng.choice([1, 2, 3]))
+        v = '%d,%d' % (tg, rng.choice([1, 2, 3, 1, 2, 3, 0]))
         r2 = rng.random()
         if r2 < 0.25:
             v += ',%s' % _g(rng.choice([0.05, 0.1, 0.2]))
@@ -474,7 +474,10 @@ def gen_loads(rng, m, kinds):
         for _ in range(cnt):
             if kind == 'impedance':
                 z = rng.choice(['50+3j', '100', '10-200j', '0+75j', '1000+0j', '5'])
-                a.append('--load=%s' % z)
+                if rng.random() < 0.2:
+                    a.extend(['-l', z])
+                else:
+                    a.append('--load=%s' % z)
             elif kind == 'rlc':
                 v = rng.choice(['10,1e-6,1e-10', '0,2e-6,', '50,,', ',,1e-10', '5,1e-6,', '1,,5e-11'])
                 a.append('--rlc-load=%s' % v)
